@@ -136,7 +136,13 @@ func buildConfig(g c09group, pattern []int, exprParent bool, useLevel int) *Prog
 			case 1:
 				body = append(body, &gen.NBlock{Name: "b" + strconv.Itoa(j), Body: blockBody(fmt.Sprintf("t%d.b%d", k, j), false)})
 			case 2:
-				body = append(body, &gen.NBlock{Name: "b" + strconv.Itoa(j), Body: blockBody(fmt.Sprintf("t%d.b%d", k, j), true)})
+				bb := blockBody(fmt.Sprintf("t%d.b%d", k, j), true)
+				if (k+j)%2 == 0 {
+					// a nested block of its own before the parent() call
+					nested := &gen.NBlock{Name: fmt.Sprintf("n%d%d", k, j), Body: blockBody(fmt.Sprintf("t%d.n%d%d", k, k, j), false)}
+					bb = append([]gen.Node{bb[0], nested}, bb[1:]...)
+				}
+				body = append(body, &gen.NBlock{Name: "b" + strconv.Itoa(j), Body: bb})
 			}
 		}
 		ts[tname(k)] = tpl(tname(k), body...)
@@ -224,7 +230,7 @@ func (p *c09) Run(i int) (res fw.Result) {
 }
 
 func (p *c09) Rule() string {
-	return "bounded-exhaustive configurations: chain length L x block names B x for every non-root level and block one of {absent, override, override calling parent()} (3^((L-1)B) patterns) x root layout {flat, blocks nested in b0, each block inside a 2-iteration loop} x use at one level {none, plain import of the last block name whose body calls parent(), aliased import 'orig0 as b0'}; quick: L<=3, B<=2, all layouts and use variants; thorough: full product L<=4, B<=4 on the flat layout (3^12 patterns at the top size) and L<=4, B<=3 for the other layouts/use variants. Parents are named by an expression ('t' ~ '0') in a third of the cases; every child has content outside blocks that must not render. Random: larger shapes with block() calls, a root-only block in a loop with a nested block overridden by the leaf. Every block body prints a unique marker and calls a recording function; oracle = reference model output and the callback log including Context.Name() (must be the defining template, also inside parent() bodies). Non-trivial = chain >= 2 with >= 1 override; enumerated configurations are distinct by construction."
+	return "bounded-exhaustive configurations: chain length L x block names B x for every non-root level and block one of {absent, override, override calling parent() - half of those with a nested block of their own in front of the call} (3^((L-1)B) patterns) x root layout {flat, blocks nested in b0, each block inside a 2-iteration loop} x use at one level {none, plain import of the last block name whose body calls parent(), aliased import 'orig0 as b0'}; quick: L<=3, B<=2, all layouts and use variants; thorough: full product L<=4, B<=4 on the flat layout (3^12 patterns at the top size) and L<=4, B<=3 for the other layouts/use variants. Parents are named by an expression ('t' ~ '0') in a third of the cases; every child has content outside blocks that must not render. Random: larger shapes with block() calls, a root-only block in a loop with a nested block overridden by the leaf. Every block body prints a unique marker and calls a recording function; oracle = reference model output and the callback log including Context.Name() (must be the defining template, also inside parent() bodies). Non-trivial = chain >= 2 with >= 1 override; enumerated configurations are distinct by construction."
 }
 
 func (p *c09) Assumptions() []string {
